@@ -119,8 +119,8 @@ def e2e(ctx, build, scratch, exe, cat, model, tier, looms=1):
             if not ok:
                 # would the rows be explained if a CPU in a task body showed the body subsystem instead of its task type?
                 alt = []
-                for r in cpurows:
-                    v = set(cpu_value(disp, r, c, stale))
+                for i, r in enumerate(cpurows):
+                    v = set(vals[i])
                     if disp.get(("cpu", r, c["idle"]), 0) == 100 and disp.get(("cpu", r, c["ss"]), 0) == c["body"] and disp.get(("cpu", r, c["ty"]), 0):
                         v.add(c["body"])
                         v.add(0)
@@ -165,9 +165,9 @@ def e2e(ctx, build, scratch, exe, cat, model, tier, looms=1):
                                     {"kind": "breakdown-unneeded-update"})
                         d2[(n, row, ty)] = val
                     # per CPU: did the task type change after the subsystem last did?
-                    st, ran = st if isinstance(st, tuple) else (st, frozenset())
+                    stale0, ran = st
                     ran2 = frozenset(set(ran) | set(rr for rr in cpurows if runners(d2, rr)))
-                    st2 = set(st)
+                    st2 = set(stale0)
                     for rr in cpurows:
                         if d.get(("cpu", rr, c["ss"]), 0) != d2.get(("cpu", rr, c["ss"]), 0):
                             st2.discard(rr)
